@@ -1,8 +1,9 @@
 //@ assume: heed / LMDB (C behind FFI) is abstract. A transaction carries a ghost VIEW: a map from (database id, key bytes) to value bytes. Assumed heed contracts: `env.write_txn()` / `env.read_txn()` start from the committed state of the environment (`sp_committed(env)`); `env.nested_write_txn(&mut parent)` and `txn.nested_read_txn()` start from the PARENT's current view (LMDB nested transactions see their parent's uncommitted writes); `db.put / db.delete(&mut txn, ..)` change exactly that key of exactly that transaction's view; `db.get(&txn, k)` reads that transaction's view; `txn.commit()` returns the outcome `sp_commit_ok(txn)` of committing THAT transaction. That LMDB implements atomic, isolated, durable commits is assumed, not proved; concurrency, the resize gate and crash points are outside.
 //@ assume: T5: `Database<Bytes, Bytes>` / `RoTxn<'_, WithoutTls>` / `RwTxn<'a>` / `Env<WithoutTls>` => abstract types of the same names; heed errors are converted by `?` in the real code: the abstract heed methods return the store's Error directly; `Arc<HashMap<u8, Database>>` => abstract `PreDbs` with `get`; T6: `"db for provided key not found".to_string()` => `msg()`; `deserialize(key, res).map(Some)` => `res_map_some(deserialize(key, res))` (verified helper). Nothing else is rewritten.
 //@ assume: decided here (C18, sequential wrapper level): Batch::put / delete change exactly the addressed key of exactly the addressed database in THIS batch's write transaction (an unknown database key is an error and changes nothing); Batch::exists / get_with read THIS batch's own view -- writes made in the batch are visible inside it -- through a nested read transaction; Store::exists / get_with read through a transaction the caller supplies / a fresh read transaction over the COMMITTED state; Batch::child is a nested write transaction over this batch's view, holds no transaction counter of its own and refers to the same store; Batch::commit commits exactly this batch's transaction and reports its outcome; Batch::new opens its write transaction only after entering the transaction gate and keeps the counter for its lifetime; Store::batch runs the resize check before opening the batch.
-//@ assumed_items: 16
-//@ fns: Store::get_db, Store::get_with, Store::exists, Store::batch, Batch::new, Batch::put, Batch::put_ser_with_version, Batch::put_ser, Batch::protocol_version, Batch::get_with, Batch::exists, Batch::delete, Batch::commit, Batch::child
+//@ assume: Batch::get_ser: T6: the decoding closure `|_, mut data| match ser::deserialize(&mut data, self.protocol_version(), d) { Ok(res) => Ok(res), Err(e) => Err(From::from(e)) }` is re-written with typed parameters, the protocol version read before the call and a spliced contract saying what it must compute (the bytes it is handed, decoded with THAT version and mode); ser::deserialize over `&mut &[u8]` => deserialize_slice over the slice; `From::from(e)` => Error::SerErr(e). What is decided: the key / database handed to get_with, the store's version, and the DEFAULT mode (full) when none is asked for
+//@ assumed_items: 17
+//@ fns: Store::get_db, Store::get_with, Store::exists, Store::batch, Batch::new, Batch::put, Batch::put_ser_with_version, Batch::put_ser, Batch::get_ser, Batch::protocol_version, Batch::get_with, Batch::exists, Batch::delete, Batch::commit, Batch::child
 pub enum Error { NotFoundErr(String), LmdbErr(String), SerErr(SerError), FileErr(String), OtherErr(String) }
 #[verifier::external_body]
 pub struct SerError { _p: u8 }
@@ -74,10 +75,20 @@ pub fn res_map_some<T>(r: Result<T, Error>) -> (o: Result<Option<T>, Error>)
     ensures r matches Ok(v) ==> o == Ok::<Option<T>, Error>(Some(v)), r matches Err(e) ==> o == Err::<Option<T>, Error>(e),
         o matches Ok(Some(v)) ==> r == Ok::<T, Error>(v), !(o matches Ok(None)),
 { match r { Ok(v) => Ok(Some(v)), Err(e) => Err(e) } }
+pub use ser::DeserializationMode;
 pub mod ser {
     use super::*;
     use vstd::prelude::*;
     pub trait Writeable { spec fn sp_bytes(&self, v: ProtocolVersion) -> Seq<u8>; }
+    #[derive(Clone, Copy, PartialEq, Eq)]
+    pub enum DeserializationMode { Full, SkipPow }
+    impl DeserializationMode { pub fn default() -> (r: DeserializationMode) ensures r == DeserializationMode::Full { DeserializationMode::Full } }
+    /// what decoding `bytes` with a protocol version and a mode yields (uninterpreted: C10 / C11 decide the decoders)
+    pub trait Readable: Sized { spec fn sp_decoded(bytes: Seq<u8>, v: ProtocolVersion, m: DeserializationMode, t: Self) -> bool; }
+    /// stands in for `ser::deserialize(&mut data, version, mode)`: `data` is the byte slice handed to the closure
+    #[verifier::external_body]
+    pub fn deserialize_slice<T: Readable>(data: &[u8], version: ProtocolVersion, mode: DeserializationMode) -> (r: Result<T, SerError>)
+        ensures r matches Ok(t) ==> T::sp_decoded(data@, version, mode, t) { unimplemented!() }
     #[verifier::external_body]
     pub fn ser_vec<W: Writeable>(value: &W, version: ProtocolVersion) -> (r: Result<Vec<u8>, SerError>)
         ensures r matches Ok(d) ==> d@ == value.sp_bytes(version) { unimplemented!() }
@@ -164,6 +175,17 @@ impl<'a> Batch<'a> {
 //@+    final(self).store == old(self).store, final(self).write.env@ == old(self).write.env@,
 //@+    r.is_ok() ==> final(self).write.view@ == old(self).write.view@.insert((sp_dbid(db_key), key@), value.sp_bytes(old(self).store.version)),
 //@+    r.is_err() ==> final(self).write.view@ == old(self).write.view@,
+//@ end
+//@ extract store/src/lmdb.rs :: impl Batch::get_ser
+//@   sigrewrite `pub fn get_ser<T: ser::Readable>(` => `pub fn get_ser<T: ser::Readable>(`
+//@   rewrite `self.get_with(db_key, key, |_, mut data| {\n\t\t\tmatch ser::deserialize(&mut data, self.protocol_version(), d) {\n\t\t\t\tOk(res) => Ok(res),\n\t\t\t\tErr(e) => Err(From::from(e)),\n\t\t\t}\n\t\t})` => `let pv = self.protocol_version(); self.get_with(db_key, key, |_k: &[u8], data: &[u8]| -> (cr: Result<T, Error>) ensures cr matches Ok(t) ==> T::sp_decoded(data@, pv, d, t) {\n\t\t\tmatch ser::deserialize_slice(data, pv, d) {\n\t\t\t\tOk(res) => Ok(res),\n\t\t\t\tErr(e) => Err(Error::SerErr(e)),\n\t\t\t}\n\t\t})`
+//@   requires:
+//@+    sp_store_ok(*self.store),
+//@   ensures:
+//@+    // decodes THIS batch's own (uncommitted) value of the key, with the STORE's protocol version and the mode asked for (default: full)
+//@+    r matches Ok(None) ==> !self.write.view@.contains_key((sp_dbid(db_key), key@)),
+//@+    r matches Ok(Some(t)) ==> self.write.view@.contains_key((sp_dbid(db_key), key@))
+//@+        && T::sp_decoded(self.write.view@[(sp_dbid(db_key), key@)], self.store.version, (match deser_mode { Some(m) => m, None => ser::DeserializationMode::Full }), t),
 //@ end
 //@ extract store/src/lmdb.rs :: impl Batch::get_with
 //@   requires:
